@@ -260,7 +260,8 @@ class DAGRunConcurrentManager(DAGRunManagerLike):
                 u - Node
                 v - Node Edge
             """
-            return not self.dag.graph.edges[u, v].get(EdgeField.case_branch)
+            # A case label may be any value, including a falsy one, so the presence of the attribute is what matters
+            return EdgeField.case_branch not in self.dag.graph.edges[u, v]
 
         def _filter_node(u: str) -> bool:
             """
